@@ -11,6 +11,8 @@
 #include <condition_variable>
 #include <cstdio>
 #include <fstream>
+#include <iterator>
+#include <limits>
 #include <mutex>
 #include <set>
 #include <thread>
@@ -34,7 +36,15 @@ public:
     {
       try
       {
-        file >> _store;
+        // The file is this class's own dump(): read it back with limits that
+        // dump() cannot exceed. The default ParseLimits (10000 members/items,
+        // depth 100, 1000000-byte strings) are meant for untrusted input; set()
+        // enforces none of them, so a larger document used to fail to parse
+        // here, the store silently started empty and the next flush destroyed
+        // the data on disk.
+        const std::string content((std::istreambuf_iterator<char>(file)),
+                                  std::istreambuf_iterator<char>());
+        _store = parsers::Json::parseOrThrow(content, ownFileLimits());
         iora::core::Logger::info("JsonFileStore: Loaded existing data with " +
                                  std::to_string(_store.size()) + " keys from: " + _filename);
       }
@@ -344,6 +354,18 @@ private:
         store->tryFlushIfDirty();
       }
     }
+  }
+
+  /// \brief Limits for re-reading the store's own file: none (every size the
+  /// process could hold in memory, hence write, is accepted).
+  static parsers::ParseLimits ownFileLimits()
+  {
+    parsers::ParseLimits limits;
+    limits.arrayItemsMax = std::numeric_limits<std::size_t>::max();
+    limits.membersMax = std::numeric_limits<std::size_t>::max();
+    limits.depthMax = std::numeric_limits<std::size_t>::max();
+    limits.stringLengthMax = std::numeric_limits<std::size_t>::max();
+    return limits;
   }
 
   const std::string _filename;
